@@ -59,6 +59,9 @@ def main():
         scen.append({"kind": "index", "id": "idx%d" % k, "sites": sites, "mode": rng.random() < 0.5})
     for n in range(0, 4):
         scen.append({"kind": "store", "id": "store%d" % n, "N": n})
+    # the same storage object refilled with shrinking, vanishing and growing windows
+    for (i, Ns) in enumerate([[3, 1, 2, 0, 2, 1], [2, 0, 0, 3], [1, 0, 1]] + ([[4, 0, 4, 2, 0, 1, 3]] if thorough else [])):
+        scen.append({"kind": "store", "id": "storeh%d" % i, "Ns": Ns})
     m2 = [list(t) for nlen in (1, 2, 3) for t in itertools.product([[cc, i] for cc in (0, 1) for i in range(3)], repeat=nlen)]
     for _ in range(120 if not thorough else 1500):
         k += 1
